@@ -212,6 +212,8 @@ def s_load(draw, mdl: M.Model, kinds=('const', 'speed', 'pos', 'time')):
         # discrete map is chaotic and metamorphic comparisons (C07, C12) are ill-conditioned
         kmax = 0.1 * mdl.J_eq * mdl.k ** 2 / load['csin']
         load['kpos'] = min(draw(st.floats(0.1, 10)), kmax)
+        if draw(st.booleans()):
+            load['lib_trig'] = True
     if 'time' in kinds and draw(st.booleans()):
         load['ct'] = stall * draw(st.floats(0.01, 0.4))
         load['period'] = draw(st.floats(2, 50)) / mdl.k
